@@ -62,7 +62,9 @@ Definition judge (cs : list case) := judge_all judge1 cs.
    classes are recomputed for it and a repaired class is no longer a listed finding: a recurrence is a
    violation. Inside the guard of the theorems (klass_top = 0, stated for the unrepaired model) the repaired
    model must in addition give the same answer as the unrepaired one, so that the theorems still speak
-   about what the implementation does. *)
+   about what the implementation does.  With all four repairs the guard is the wider klass_top_inh
+   (C13_resolver_sound_inherited_init, stated for the repaired resolver itself): classes that inherit
+   __init__ are inside. *)
 Definition res_params_eqb (a b : res (list rparam)) : bool :=
   match a, b with
   | Ok x, Ok y => list_eqb rparam_eqb x y
@@ -81,12 +83,16 @@ Definition model_agrees_fx (fx : fixes) (c : case) : bool :=
 Definition judge1_fx (fx : fixes) (c : case) : verdict :=
   let P := c_prog c in
   let k0 := klass_top FUEL P (c_cls c) in
+  (* hypothesis of C13_resolver_sound_inherited_init (stated for resolve_fx all_fixes): the class may inherit
+     __init__; the frame of the inherited __init__ at its own MRO position is inside the proved fragment *)
+  let inh := fx_mro fx && fx_pop fx && fx_meth fx && fx_crash fx
+             && N.eqb (klass_top_inh FUEL P (c_cls c)) 0 in
   let k := klass_top_fx fx FUEL P (c_cls c) in
   let ma := model_agrees_fx fx c in
   {| v_model := ma
                 && (negb (N.eqb k0 0)
                     || res_params_eqb (resolve FUEL P (c_cls c)) (resolve_fx fx FUEL P (c_cls c)));
-     v_class := if N.eqb k0 0 then 0%N
+     v_class := if N.eqb k0 0 || inh then 0%N
                 else if ma && listed_fx fx k then k else 9%N;
      v_spec := exact_b FUEL P (c_cls c) (c_offered c)
                && list_eqb rparam_eqb (c_offered c) (c_alone c)   (* the answer does not depend on the history *)
